@@ -100,7 +100,10 @@ func (ts *Timers) Start(ctx context.Context) error {
 
 func (ts *Timers) add(ctx context.Context, e *TimerEntry) error {
 	if _, have := ts.Map[e.Id]; have {
-		return ts.cancel(ctx, e.Id)
+		// A timer made under a pending id replaces that timer.
+		if err := ts.cancel(ctx, e.Id); err != nil {
+			return err
+		}
 	}
 
 	ts.Map[e.Id] = e
